@@ -222,7 +222,7 @@ def run(ctx):
                         "second-order classes: vertex rows of t only take part in the connectivity"]
     if not getattr(ctx, "no_lean", False):
         ctx.prove(["SkfemVerif.Props.C11"], ["SkfemVerif/Props/C11.lean"])
-    n = ctx.scale(120, 1200)
+    n = ctx.scale(400, 2500)
     pending = []
     for it in range(n):
         if ctx.time_left(0.8) < 0:
@@ -256,6 +256,28 @@ def run(ctx):
         except Exception as e:
             ctx.violation("renumbered mesh raised " + exc_kind(e), {"mesh": meshes.mesh_descr(m), "err": repr(e)},
                           {"what": "raise", "cls": type(m).__name__})
+        # boundary / interior edges under MANY vertex numberings (the pair encoding of edges must not collide)
+        try:
+            if m.dim() == 3 and m.t.shape[0] == m.elem.refdom.nnodes and m.p.shape[1] <= 40:
+                for rep in range(ctx.scale(12, 40)):
+                    p2, t2, _ = meshes.renumber(ctx.rng, m.p, m.t.astype(np.int64))
+                    m2 = type(m)(p2, t2.astype(np.int32))
+                    bf = np.nonzero(m2.f2t[1] == -1)[0]
+                    fsets = [set(int(v) for v in m2.facets[:, f]) for f in bf]
+                    want = sorted(e for e in range(m2.edges.shape[1])
+                                  if any(set(int(v) for v in m2.edges[:, e]) <= fs for fs in fsets))
+                    got = sorted(int(e) for e in m2.boundary_edges())
+                    goti = sorted(int(e) for e in m2.interior_edges())
+                    ctx.count("edge-numbering-sweep")
+                    if got != want or goti != sorted(set(range(m2.edges.shape[1])) - set(want)):
+                        ctx.violation("boundary_edges() / interior_edges() are not the edges of the boundary facets "
+                                      "and their complement under this vertex numbering",
+                                      {"mesh": meshes.mesh_descr(m2), "got": got, "want": want},
+                                      {"what": "boundary-edges-numbering", "cls": type(m).__name__})
+                        break
+        except Exception as e:
+            ctx.violation("edge queries on a renumbered mesh raised " + exc_kind(e),
+                          {"mesh": meshes.mesh_descr(m), "err": repr(e)}, {"what": "raise", "cls": type(m).__name__})
         # meshes obtained from library operations AFTER the connectivity of the operand has been queried
         # (the tables are cached lazily: a copy must not inherit tables that no longer fit its cells)
         try:
@@ -269,7 +291,11 @@ def run(ctx):
                     ops += ["refined", "mirrored"]
                 if kind not in ("wedge", "line"):
                     ops += ["with_defaults"]       # MeshLine1 has no params(): default tags are not offered in 1-D
+                if kind in ("tri", "tet", "line") and type(m).__name__.endswith("1") and m.nelements <= 24:
+                    ops += ["adaptive", "adaptive"]
                 op = ctx.rng.choice(ops)
+                before = (m.p.copy(), m.t.copy())
+                canon_before = canonical_topology(m)
                 if op == "oriented":
                     # hand the constructor a mesh with negatively oriented cells, query, then orient
                     t2 = m.t.copy()
@@ -294,6 +320,9 @@ def run(ctx):
                         if m.nelements > 1 else m
                 elif op == "refined":
                     md = m.refined(1) if m.nelements <= 16 else m
+                elif op == "adaptive":
+                    md = m.refined(np.array(sorted(ctx.rng.sample(range(m.nelements),
+                                                                  ctx.rng.randint(1, m.nelements))), dtype=np.int64))
                 else:
                     md = m.mirrored(tuple(1.0 if i == 0 else 0.0 for i in range(m.dim())))
                 ctx.count("derived:" + op)
@@ -301,6 +330,22 @@ def run(ctx):
                     ctx.violation(what + " (mesh derived by " + op + " after its operand's tables were queried)",
                                   {"mesh": meshes.mesh_descr(m), "op": op, "derived": meshes.mesh_descr(md),
                                    "detail": detail}, {"what": what, "cls": type(md).__name__, "op": op})
+                # ... and the OPERAND keeps using its own tables: they must still describe its cells
+                if op != "oriented":
+                    if not (np.array_equal(before[0], m.p) and np.array_equal(before[1], m.t)):
+                        ctx.violation("the operand's p / t changed while a mesh was derived from it by " + op +
+                                      " (its cached tables no longer describe its cells)",
+                                      {"mesh": meshes.mesh_descr(m), "op": op, "t_before": before[1].tolist()},
+                                      {"what": "operand-changed", "cls": type(m).__name__, "op": op})
+                    else:
+                        for what, detail in oracle(m):
+                            ctx.violation(what + " (operand re-examined after " + op + ")",
+                                          {"mesh": meshes.mesh_descr(m), "op": op, "detail": detail},
+                                          {"what": what, "cls": type(m).__name__, "op": "operand-after-" + op})
+                        if canonical_topology(m) != canon_before:
+                            ctx.violation("the operand's connectivity tables changed while a mesh was derived by " + op,
+                                          {"mesh": meshes.mesh_descr(m), "op": op},
+                                          {"what": "operand-tables-changed", "cls": type(m).__name__, "op": op})
         except Exception as e:
             ctx.violation("derived mesh raised " + exc_kind(e), {"mesh": meshes.mesh_descr(m), "err": repr(e)},
                           {"what": "raise-derived", "cls": type(m).__name__})
